@@ -79,12 +79,20 @@ Fixpoint seek (es : list entry) (k : bytes) : list entry :=
   | e :: r => if lex_ltb (m_id (e_msg e)) k then seek r k else es
   end.
 
+(* Seek(start); Next() only when the iterator stands on [start] itself (its message may have
+   expired since it was returned) *)
+Definition seek_next (es : list entry) (start : bytes) : list entry :=
+  match seek es start with
+  | e :: r => if bytes_eqb (m_id (e_msg e)) start then r else e :: r
+  | [] => []
+  end.
+
 Definition lookup (s : store) (now : Z) (ssid : list N) (from until : Z) (start : bytes) (limit : N) : list msg :=
   let vis := filter (visible now) s in
   let from_pos :=
     match start with
     | [] => match new_prefix ssid until with Ok p => seek vis p | _ => [] end
-    | _ => tl (seek vis start)            (* Seek(start); Next() *)
+    | _ => seek_next vis start
     end in
   scan from_pos ssid from until limit [] 0.
 
